@@ -467,7 +467,7 @@ pub fn run_point(root: &Path, p: &Point) -> PointResult {
         _ => 'C',
     };
     let val = if p.op.is_lookup() { value(pop_c, p.size) } else { value('V', p.size) };
-    let op = Op { kind: p.op, key: keyspec(), val, pop: match p.pop { 'N' => Pop::NotFound, 'E' => Pop::Error, _ => Pop::Value }, nosy: p.nosy };
+    let op = Op { kind: p.op, key: keyspec(), val, pop: match p.pop { 'N' => Pop::NotFound, 'E' => Pop::Error, _ => Pop::Value }, nosy: p.nosy, link_from: None };
     let world = trace_world(&[root]);
     let old_umask = unsafe { libc::umask(p.umask as libc::mode_t) };
     let mut log_entries: Vec<(Vec<u8>, Vec<u8>)> = Vec::new();
